@@ -7,7 +7,7 @@ import numpy as np
 from .. import coqio as cq
 from .. import gen
 from .. import gmmtrain as gt
-from ..impl import GMMMachine, make_gmm, hexlist, make_gmm
+from ..impl import GMMMachine, GMMStats, make_gmm, hexlist, make_gmm
 
 SWITCHES = list(itertools.product([True, False], repeat=3))
 D2 = "D2-map-variance-unsquared-prior-mean"
@@ -156,6 +156,27 @@ def run(chk):
                 chk.fail("initialize_gaussians() on an adapted MAP machine does not restore the prior's weights, means and variances", ctx)
             if np.shares_memory(np.asarray(mi.means), np.asarray(pri.means)):
                 chk.fail("after initialize_gaussians() the MAP machine's means share memory with the prior's", ctx)
+        # ---- hand-built statistics with hard (integer-typed) counts through the public m_step: the same adaptation as with the counts as floats
+        if i % 5 == 2:
+            from bob.learn.em import gmm as gmm_module
+            g5 = gen.nprng(r)
+            n_int = g5.integers(1, 9, size=C).astype(np.int64)
+            def hand(nvals):
+                st_ = GMMStats(C, D)
+                st_.t = int(n_int.sum())
+                st_.n = nvals
+                st_.sum_px = n_int[:, None] * (np.asarray(mu) + 0.4 * np.sqrt(np.asarray(var)))
+                st_.sum_pxx = n_int[:, None] * (np.asarray(var) * 1.3 + (np.asarray(mu) + 0.4 * np.sqrt(np.asarray(var))) ** 2)
+                st_.log_likelihood = -1.0
+                return st_
+            ma_, _ = gt.build_machine(dict(cfg, cap=1, map=dict(relevance=None, alpha=0.3, prior=(w, mu, var, thr))))
+            mb_, _ = gt.build_machine(dict(cfg, cap=1, map=dict(relevance=None, alpha=0.3, prior=(w, mu, var, thr))))
+            gmm_module.m_step([hand(n_int)], ma_)
+            gmm_module.m_step([hand(n_int.astype(float))], mb_)
+            chk.count(1, key=("integer-counts",))
+            if not (np.allclose(ma_.means, mb_.means, rtol=1e-12, atol=0) and np.allclose(ma_.weights, mb_.weights, rtol=1e-12, atol=0)):
+                chk.fail("MAP adaptation (fixed ratio 0.3) from statistics whose counts are integer-typed differs from the same counts as floats (means %s vs %s)"
+                         % (np.asarray(ma_.means).tolist(), np.asarray(mb_.means).tolist()), dict(ctx, counts=n_int.tolist()))
         # prior untouched
         if not (np.array_equal(prior.means, p0.means) and np.array_equal(prior.variances, p0.variances) and np.array_equal(prior.weights, p0.weights)):
             chk.fail("the prior (UBM) was modified by MAP training", ctx)
